@@ -23,6 +23,7 @@ inductive Cause
   | overBalance        -- "not enough available user balance"
   | hfLowAfter         -- withdraw / change_collateral: "health factor lower than liquidation threshold"
   | notSupplied        -- KeyError: `_supplies[token]`
+  | cannotCollateral   -- change_collateral(…, True): "Can not supplied as collateral"
   | arith              -- decimal.DivisionByZero / InvalidOperation
 deriving DecidableEq, Repr
 
@@ -41,6 +42,7 @@ def Cause.name : Cause → String
   | .overBalance => "overBalance"
   | .hfLowAfter => "hfLowAfter"
   | .notSupplied => "notSupplied"
+  | .cannotCollateral => "cannotCollateral"
   | .arith => "arith"
 
 /-- `AaveV3CoreLib.get_max_borrow_value` then `/ price` (`get_max_borrow_amount`).
@@ -106,6 +108,8 @@ def changeCollateral (cx : NumCtx) (p : Portfolio) (tok : String) (flag : Bool) 
   | none => .error .notSupplied
   | some s =>
     if s.coll = flag then .ok p else
+    -- as repaired: the rule of `supply` — a token the risk table does not admit cannot be switched on
+    if flag = true ∧ s.row.canColl = false then .error .cannotCollateral else
     let p' : Portfolio := { p with supplies := setSupplyColl p.supplies tok flag }
     if flag = false ∧ (healthFactor cx p').ltB Gen.arHfLiqThreshold = true then .error .hfLowAfter
     else .ok p'
